@@ -1,4 +1,5 @@
 import Dcg.Proofs.Resolver
+import Dcg.Proofs.ResolverMultidoc
 import Dcg.Proofs.ResolverWorklist
 /-
 C06 — each named schema yields exactly one model and every reference lands on it.
@@ -307,5 +308,35 @@ example :
   decide
 
 end Worklist
+
+/-! ### pending pointers of a document SET (directory input) -/
+
+section multidoc
+open Dcg.Model.ResolverMultidoc Dcg.Proofs.ResolverMultidoc
+
+/-- RESOLVES_IN_OWN_DOCUMENT: every `parse_json_pointer` that `_resolve_unparsed_json_pointer` makes
+for a pending reference `file#pointer` looks the pointer up in the document `file` — whatever document
+`self.raw_obj` was left at by `parse_raw` (the last one of the set), however many passes are needed and
+whatever the pending references lead to. (The model keeps the field `raw_obj`; the statement holds because
+it is re-assigned from the pending reference's own source before every lookup.) -/
+theorem resolves_in_own_document (docs : Nat → Ptr → Option (List Ref)) (nDocs fuel : Nat)
+    (loaded reserved : List Ref) (staleRawObj : Nat) (st' : MState)
+    (h : resolveUnparsed docs nDocs fuel ⟨loaded, reserved, staleRawObj, []⟩ = .done st') :
+    ∀ e ∈ st'.trace, e.1 = e.2.doc :=
+  resolveUnparsed_own docs nDocs fuel _ st' h (by intro e he; cases he)
+
+/-- non-vacuity: three documents, `raw_obj` left at the last one (2); document 2 referenced
+`0#/x-parts/Alpha`, whose subschema refers on to `1#/x-parts/Beta`: two passes, both lookups in the
+pointers' own documents. -/
+example :
+    let docs : Nat → Ptr → Option (List Ref) := fun d p =>
+      if d = 0 ∧ p = "/x-parts/Alpha".toList then some [⟨1, "/x-parts/Beta".toList⟩]
+      else if d = 1 ∧ p = "/x-parts/Beta".toList then some []
+      else none
+    (match resolveUnparsed docs 3 5 ⟨[], [⟨0, "/x-parts/Alpha".toList⟩], 2, []⟩ with
+      | .done st => st.trace.map (fun e => (e.1, e.2.doc))
+      | _ => []) = [(0, 0), (1, 1)] := by decide
+
+end multidoc
 
 end Dcg.Props.C06
